@@ -100,13 +100,10 @@ func (mng *Manager) Get(keyOrPrefix string) ([]record.Record, error) {
 	mng.l.RLock()
 	defer mng.l.RUnlock()
 
-	dbName := mng.runtime.DatabaseName()
 	records := make([]record.Record, 0, len(mng.subsys))
 	for _, subsys := range mng.subsys {
 		subsys.Lock()
-		if !subsys.KeyIsSet() {
-			subsys.SetKey(dbName + ":subsystems/" + subsys.ID)
-		}
+		mng.ensureKey(subsys)
 		if strings.HasPrefix(subsys.DatabaseKey(), keyOrPrefix) {
 			records = append(records, subsys)
 		}
@@ -117,6 +114,14 @@ func (mng *Manager) Get(keyOrPrefix string) ([]record.Record, error) {
 	sort.Sort(bySubsystemID(records))
 
 	return records, nil
+}
+
+// ensureKey sets the database key of the subsystem record, if it is not
+// set yet. The subsystem must be locked.
+func (mng *Manager) ensureKey(subsys *Subsystem) {
+	if !subsys.KeyIsSet() {
+		subsys.SetKey(mng.runtime.DatabaseName() + ":subsystems/" + subsys.ID)
+	}
 }
 
 // Register registers a new subsystem. The given option must be a bool option.
@@ -221,6 +226,9 @@ func (mng *Manager) handleModuleUpdate(m *modules.Module) {
 	}
 
 	if updated {
+		// Subscribers are matched by key, which is otherwise only set when
+		// the record is read for the first time.
+		mng.ensureKey(subsys)
 		mng.pushUpdate(subsys)
 	}
 }
